@@ -1025,6 +1025,112 @@ fn stress_batch(seed: u64, off: u64, from: u64, n: u64, rep: &mut Report) {
     }
 }
 
+// ---------------------------------------------------------------- ThreadSanitizer (search mode / thorough)
+
+/// newest ThreadSanitizer report in `$C16_TSAN_LOGDIR` (files `tsan.<pid>`)
+fn newest_tsan_report() -> Option<String> {
+    let dir = std::env::var("C16_TSAN_LOGDIR").ok()?;
+    let mut best: Option<(std::time::SystemTime, std::path::PathBuf)> = None;
+    for e in std::fs::read_dir(&dir).ok()?.flatten() {
+        let p = e.path();
+        if !p.file_name().and_then(|n| n.to_str()).map(|n| n.starts_with("tsan.")).unwrap_or(false) {
+            continue;
+        }
+        let t = e.metadata().and_then(|m| m.modified()).ok()?;
+        if best.as_ref().map(|b| t > b.0).unwrap_or(true) {
+            best = Some((t, p));
+        }
+    }
+    let (_, p) = best?;
+    let text = std::fs::read_to_string(&p).ok();
+    let _ = std::fs::remove_file(&p);
+    text
+}
+
+/// the list functions on the two sides of a reported race (first frame of
+/// each stack inside `roto::value::list`), and the kind of report
+fn tsan_key(report: &str) -> (String, Vec<String>) {
+    let kind = report
+        .lines()
+        .find_map(|l| l.trim().strip_prefix("WARNING: ThreadSanitizer: "))
+        .map(|l| l.split(" (pid").next().unwrap_or(l).to_string())
+        .unwrap_or_else(|| "report".into());
+    let mut sides = vec![];
+    let mut in_stack = false;
+    let mut found = false;
+    for l in report.lines() {
+        let t = l.trim();
+        if !t.starts_with('#') {
+            in_stack = false;
+            found = false;
+            continue;
+        }
+        if !in_stack {
+            in_stack = true;
+        }
+        if !found && t.contains("roto::value::list") {
+            // "#5 <roto::value::list::ErasedList>::swap /path:line:col (…)"
+            let f = t.splitn(2, ' ').nth(1).unwrap_or(t);
+            let f = f.split(" /").next().unwrap_or(f);
+            let f = f.replace("roto::value::list::", "").replace("boundary::", "");
+            sides.push(f);
+            found = true;
+        }
+    }
+    sides.truncate(2);
+    sides.sort();
+    (kind, sides)
+}
+
+/// free-running races in a ThreadSanitizer build (this binary built with
+/// `-Zsanitizer=thread`): a report = an access to list memory that is not
+/// ordered by the list's mutex
+fn tsan_parent(seed: u64, trials: u64, rep: &mut Report) {
+    let seed_s = seed.to_string();
+    let mut off = 0u64;
+    let mut reports = 0;
+    while off < trials && reports < 2 {
+        // one worker per chunk; a worker that dies (ThreadSanitizer halts at
+        // the first report) ends its chunk
+        let chunk = 1_000.min(trials - off);
+        let (off_s, n_s) = (off.to_string(), chunk.to_string());
+        let (ended, out) =
+            rotov_harness::worker::run_worker_keep_stdout(&["stress", &seed_s, &off_s, "0", &n_s], Duration::from_secs(900));
+        if let Some(v) = Report::parse_stdout(&out) {
+            rep.merge_json(&v);
+        }
+        if ended != Ended::Exit(0, String::new()) {
+            reports += 1;
+            let idx = out
+                .lines()
+                .rev()
+                .find_map(|l| l.strip_prefix("START "))
+                .and_then(|s| s.trim().parse::<u64>().ok())
+                .unwrap_or(0);
+            let c = stress_case(seed, (off + idx) / 64);
+            let text = newest_tsan_report().unwrap_or_default();
+            let (kind, sides) = tsan_key(&text);
+            let excerpt: Vec<&str> = text
+                .lines()
+                .filter(|l| {
+                    let t = l.trim();
+                    t.starts_with("WARNING") || t.starts_with("Write of") || t.starts_with("Read of") || t.starts_with("Previous")
+                        || t.starts_with("SUMMARY") || t.contains("roto::value::list")
+                })
+                .take(14)
+                .collect();
+            rep.violation(
+                "ThreadSanitizer: list memory is accessed without the ordering the list's mutex gives (free-running race of these operations)",
+                &format!("tsan {kind}: {}", if sides.is_empty() { "?".to_string() } else { sides.join(" / ") }),
+                json!({"lists": c.lists_text(), "progs": c.progs_text(), "stress": true, "tsan": true, "seed": seed, "trial": off + idx,
+                       "ended": format!("{ended:?}"), "report": excerpt}),
+            );
+        }
+        off += chunk;
+    }
+    rep.notes.push(format!("thread-sanitizer: {} free-running races (2 threads x 1-2 operations) in a -Zsanitizer=thread build (std rebuilt, so the mutex's atomics are seen)", off));
+}
+
 fn bucket(n: usize) -> String {
     match n {
         0..=1 => "1".into(),
@@ -1110,6 +1216,11 @@ fn main() {
                 }
                 rep.notes.push(format!("stress: {stress} free-running races of 2 threads x 1-2 operations (push/swap/get/contains/len) on lists at a capacity boundary, each checked against every sequential order"));
             }
+        }
+        Some("tsan") => {
+            let seed: u64 = args.get(2).and_then(|s| s.parse().ok()).unwrap_or(1);
+            let trials: u64 = args.get(3).and_then(|s| s.parse().ok()).unwrap_or(4000);
+            tsan_parent(seed, trials, &mut rep);
         }
         Some("worker") if args[2] == "stress" => {
             // worker stress <seed> <off> <from> <n>
